@@ -136,6 +136,8 @@ def parse_vspec(path):
             cur_fn = FnSpec(name.strip(), mode)
             cur_item.fns[cur_fn.name] = cur_fn
             raw_target = cur_fn.contract
+        elif kw == "contract":
+            raw_target = cur_fn.contract     # switch back to the function's own contract after sub-directives
         elif kw == "ret":
             cur_fn.ret = rest
         elif kw == "attr":
@@ -391,6 +393,17 @@ def process_fn(toks, it, fs: FnSpec, qual, ed: Edits, log, unit_in_trait_impl):
                         jj -= 2
                     recv = src[toks[sgi[jj]].pos:toks[sgi[ii + 1]].end]
                     ed.replace(toks[sgi[jj]].pos, toks[sgi[ii + 3]].end, f"{helper}(&{recv})")
+                    cnt += 1
+            # bare `owner.field` (the owner is a local / parameter)
+            for ii in range(len(sgi) - 2):
+                a, b, c2 = (toks[sgi[ii + x]] for x in range(3))
+                prev = toks[sgi[ii - 1]] if ii > 0 else None
+                if a.kind == "ident" and a.text == owner and b.text == "." and c2.kind == "ident" and c2.text == fld \
+                        and (prev is None or prev.text != "."):
+                    nxt = toks[sgi[ii + 3]] if ii + 3 < len(sgi) else None
+                    if nxt is not None and nxt.text == "(":
+                        continue
+                    ed.replace(a.pos, c2.end, f"{helper}(&{owner})")
                     cnt += 1
             if cnt:
                 log["rewrites"].append({"rule": "R13", "fn": qual, "before": f"X.{owner}.{fld}", "after": f"{helper}(&X.{owner})", "count": cnt})
